@@ -15,7 +15,12 @@ func genRouteRest(L int, i int) string {
 		return "<sip:u" + itoa(i) + "@10.0.3." + itoa(10+i) + ";lr>"
 	}
 	if rt.Param("RD") == 0 {
-		return "<sip:" + rt.Str("ruser", clsUser, 1, L) + "@10.0.3." + itoa(10+i) + ";lr>"
+		// an entry need not carry lr (a strict router): the proxy relays it as it is all the same
+		lr := ";lr"
+		if i <= 1 {
+			lr = []string{";lr", "", ";transport=udp"}[rt.Choice("rest-lr", 3)]
+		}
+		return "<sip:" + rt.Str("ruser", clsUser, 1, L) + "@10.0.3." + itoa(10+i) + lr + ">"
 	}
 	switch rt.Choice("rdisplay", 3) {
 	case 1:
@@ -75,7 +80,7 @@ func VC13_Route() {
 		case 3:
 			entries = append(entries, "<sip:"+wListenAddr+":5070;lr>")
 		case 4:
-			entries = append(entries, "<sip:10.0.3.1:5060;lr>")
+			entries = append(entries, "<sip:10.0.3.1:5060"+[]string{";lr", "", ";transport=udp"}[rt.Choice("first-lr", 3)]+">")
 		case 5:
 			entries = append(entries, "<sip:other.example.com:5060;lr>")
 		case 6:
